@@ -73,11 +73,33 @@ def is_slow(m, v, kw=None):
     return _slow_cache[key]
 
 
+# inputs on which validate() raised something that is not a ValidationError while E2 was searching (the candidates
+# with a repaired check character reach code behind the checksum gate): module name -> {(exception, site): (input, kw)}.
+# C01 evaluates them as states of their own.
+crash_log = {}
+
+
 def _accepts(m, t, kw):
     try:
         return m.validate(t, **kw) == t
-    except Exception:
+    except Exception as e:  # noqa: B902
+        if not _is_verr(e):
+            from .core import exc_site
+            d = crash_log.setdefault(m.__name__, {})
+            k = (type(e).__name__, exc_site(e))
+            if k not in d or len(t) < len(d[k][0]):
+                d[k] = (t, dict(kw))
         return False
+
+
+_verr = []
+
+
+def _is_verr(e):
+    if not _verr:
+        from stdnum.exceptions import ValidationError
+        _verr.append(ValidationError)
+    return isinstance(e, _verr[0])
 
 
 def default_check_positions(v):
